@@ -243,6 +243,82 @@ async def _sc_client(case: dict, inj: _Inject) -> dict:
             await asyncio.gather(sender, return_exceptions=True)
 
 
+async def _sc_listener(case: dict, inj: _Inject) -> dict:
+    """ListenerSocketAdapter.aclose() on a real listening socket (loopback), with or without a serve() task parked in accept"""
+    import socket as _socket
+
+    from easynetwork.lowlevel.api_async.backend._asyncio.stream.listener import AcceptedSocketFactory, ListenerSocketAdapter
+
+    backend = AsyncIOBackend()
+    sock = _socket.socket(_socket.AF_INET, _socket.SOCK_STREAM)
+    serve_task = None
+    try:
+        sock.bind(("127.0.0.1", 0))
+        sock.listen(5)
+        listener = ListenerSocketAdapter(backend, sock, AcceptedSocketFactory())
+        if case["accept_pending"]:
+
+            async def serve() -> None:
+                async def handler(stream: Any) -> None:
+                    await stream.aclose()
+
+                async with backend.create_task_group() as tg:
+                    await listener.serve(handler, tg)
+
+            serve_task = asyncio.create_task(serve())
+            for _ in range(case["serve_ticks"]):
+                await asyncio.sleep(0)
+        end = await _run_close(backend, listener.aclose, inj)
+        for _ in range(3):
+            await asyncio.sleep(0)
+        facts: dict[str, Any] = {"underlying": [("listening-socket", sock.fileno() == -1)], "outer_closing": listener.is_closing()}
+        facts["second"] = await _second_close(listener)
+        return {"end": end, "facts": facts}
+    finally:
+        if serve_task is not None:
+            serve_task.cancel()
+            await asyncio.gather(serve_task, return_exceptions=True)
+        sock.close()
+
+
+async def _sc_udp_client(case: dict, inj: _Inject) -> dict:
+    """AsyncUDPNetworkClient.aclose(), optionally while another task is parked in send_packet() (datagram flow control)
+    and holds the client's send lock"""
+    from easynetwork.clients.async_udp import AsyncUDPNetworkClient
+    from easynetwork.protocol import DatagramProtocol
+
+    from ..memtransports import MemDatagramTransport
+
+    backend = VerifBackend()
+    mem = MemDatagramTransport(backend, script={k: v for k, v in case["mem_script"].items() if k in ("aclose_yields",)})
+    backend.connect_dgram_transports.append(mem)
+    client = AsyncUDPNetworkClient(("localhost", 9000), DatagramProtocol(StringLineSerializer()), backend)
+    await client.wait_connected()
+    sender = None
+    if case["contention"]:
+        mem.set_writable(False)
+        sender = asyncio.create_task(client.send_packet("parked"))
+        for _ in range(5):
+            await asyncio.sleep(0)
+        if mem.pending_senders != 1:
+            raise HarnessError("datagram sender not parked")
+        if case.get("unblock_after") is not None:
+            asyncio.get_running_loop().call_later(case["unblock_after"], mem.set_writable, True)
+    try:
+        end = await _run_close(backend, client.aclose, inj)
+        facts = {"underlying": [("datagram-transport", mem.closed)], "outer_closing": client.is_closing()}
+        facts["contention_still_parked"] = bool(sender is not None and not sender.done())
+        if not (sender is not None and not sender.done()):
+            facts["second"] = await _second_close(client)
+        else:
+            facts["second"] = None
+        return {"end": end, "facts": facts}
+    finally:
+        if sender is not None:
+            sender.cancel()
+            await asyncio.gather(sender, return_exceptions=True)
+
+
 async def _sc_adapter(case: dict, inj: _Inject) -> dict:
     """AsyncioTransportStreamSocketAdapter.aclose over the fake selector transport, with or without unsent data"""
     from easynetwork.lowlevel.api_async.backend._asyncio.stream.socket import AsyncioTransportStreamSocketAdapter, StreamReaderBufferedProtocol
@@ -272,11 +348,19 @@ async def _sc_adapter(case: dict, inj: _Inject) -> dict:
     try:
         end = await _run_close(backend, adapter.aclose, inj)
         facts: dict[str, Any] = {"underlying": [("asyncio-transport", transport.is_closing())], "outer_closing": adapter.is_closing(), "second": None}
-        # whatever happened to the first close: once the connection is gone (here: the peer drops it), a second close from
-        # a task nobody cancelled must return promptly
-        transport.abort()
-        for _ in range(3):
-            await asyncio.sleep(0)
+        if end["cancelled"]:
+            # "If aclose() is cancelled, the transport is closed abruptly": the socket must be released now, not when (if
+            # ever) the peer has read the unsent data; and the second close below gets no help from the harness
+            for _ in range(5):
+                await asyncio.sleep(0)
+            facts["underlying"].append(("socket-after-cancelled-close", transport._sock is None))
+            facts["unsent_at_cancel"] = transport.get_write_buffer_size()
+        else:
+            # the first close returned or failed: once the connection is gone (here: the peer drops it), a second close from
+            # a task nobody cancelled must return promptly
+            transport.abort()
+            for _ in range(3):
+                await asyncio.sleep(0)
         try:
             facts["second"] = await _second_close(adapter)
         except asyncio.CancelledError:
@@ -361,7 +445,8 @@ async def _sc_server_client(case: dict, inj: _Inject) -> dict:
             break
         await asyncio.sleep(0)
     facts = {
-        "underlying": [("transport-after-teardown", mem.closed)],
+        # closed when the handler's own aclose() call ended (however it ended) - not only after the server tore the client task down
+        "underlying": [("transport-right-after-aclose", bool(result.get("closed_right_after"))), ("transport-after-teardown", mem.closed)],
         "outer_closing": result.get("closing_right_after"),
         "second": None,
         "closed_right_after": result.get("closed_right_after"),
@@ -423,13 +508,15 @@ SCENARIOS = {
     "stapled-datagram": _sc_stapled,
     "endpoint": _sc_endpoint,
     "client": _sc_client,
+    "udp-client": _sc_udp_client,
+    "listener": _sc_listener,
 }
 
 
 def _one_run(case: dict, mode: str | None, k: int | None) -> dict:
     inj = _Inject(mode, k)
     try:
-        return run_virtual(SCENARIOS[case["path"]], case, inj, max_ticks=400_000)
+        return run_virtual(SCENARIOS[case["path"]], case, inj, max_ticks=400_000, real_wait_s=0.5 if case["path"] == "listener" else 0.0)
     except Deadlock as exc:
         raise Violation(
             "deadlock", f"close path did not finish (inject={mode}@{k}): {exc}", path=case["path"], inject_mode=mode, inject_step=k
@@ -447,7 +534,7 @@ def _judge(case: dict, r: dict, mode: str | None, k: int | None) -> None:
     }
     if case["path"] == "tls-wrap" and facts.get("wrap_ok"):
         return
-    if case["path"] == "client" and facts.get("contention_still_parked") and not end["cancelled"] and end["exception"] is None:
+    if case["path"] in ("client", "udp-client") and facts.get("contention_still_parked") and not end["cancelled"] and end["exception"] is None:
         raise HarnessError("client close returned while the sender still holds the lock?")
     for name, closed in facts["underlying"]:
         if not closed:
@@ -540,7 +627,7 @@ def st_mem_script() -> st.SearchStrategy[dict]:
 def st_case(draw: st.DrawFn, tier: str) -> dict:
     path = draw(
         st.sampled_from(
-            ["tls-aclose", "tls-aclose", "tls-wrap", "stapled-stream", "stapled-datagram", "endpoint", "client", "client", "client-connecting", "adapter", "server-client", "server-client"]
+            ["tls-aclose", "tls-aclose", "tls-wrap", "stapled-stream", "stapled-datagram", "endpoint", "client", "client", "udp-client", "listener", "client-connecting", "adapter", "adapter", "server-client", "server-client"]
         )
     )
     if path == "tls-aclose":
@@ -601,7 +688,16 @@ def st_case(draw: st.DrawFn, tier: str) -> dict:
         # no scripted aclose() error here: an exception from transport.aclose() during the client task's teardown escapes
         # into the server's task group (observation recorded in DESIGN 7.4; outside the statement of C14)
         return {"path": path, "contention": draw(st.booleans()), "mem_script": {"aclose_yields": draw(st.integers(0, 4)), "aclose_error": None}}
+    if path == "listener":
+        return {"path": path, "accept_pending": draw(st.sampled_from([True, True, False])), "serve_ticks": draw(st.integers(1, 4))}
     contention = draw(st.booleans())
+    if path == "udp-client":
+        return {
+            "path": path,
+            "contention": contention,
+            "unblock_after": draw(st.sampled_from([1.0, 3.0])) if contention else None,
+            "mem_script": {"aclose_yields": draw(st.integers(0, 3))},
+        }
     return {
         "path": "client",
         "contention": contention,
@@ -616,8 +712,9 @@ CHECK = Check(
     rule=(
         "scenario = close path (TLS aclose with prompt/late/never close_notify reply; TLS wrap with normal/stalled/garbage/"
         "reset/eof handshake; stapled stream/datagram transports; stream endpoint; AsyncTCPNetworkClient with or without a "
-        "sender parked on backpressure; AsyncioTransportStreamSocketAdapter over a fake selector transport with unsent data; "
-        "the server-side client of a running AsyncTCPNetworkServer closed from its handler, followed by the client task's teardown) x scripted errors/suspensions of the wrapped transport's aclose/send_all/recv_into; "
+        "sender parked on backpressure; AsyncUDPNetworkClient likewise (datagram flow control); ListenerSocketAdapter on a real loopback "
+        "listening socket with or without a pending accept; AsyncioTransportStreamSocketAdapter over a fake selector transport with unsent data; "
+        "the server-side client of a running AsyncTCPNetworkServer closed from its handler (judged right after the aclose() call ended and again after the client task's teardown)) x scripted errors/suspensions of the wrapped transport's aclose/send_all/recv_into; "
         "each scenario is run uncancelled to count its n task steps, then re-run with a cancellation delivered before every "
         "step k<n, as task.cancel() and from an enclosing scope (exhaustive per scenario); non-trivial = a cancellation "
         "landed strictly between the first and the last await; distinct = sha1(scenario)"
